@@ -11,6 +11,7 @@ Ops == [op : {"clone"}, a : Slots, b : Slots, x : {0}]
        \cup [op : {"add"}, a : Slots, b : {0}, x : Vals]
        \cup (IF Kind = "bytype" THEN [op : {"remove"}, a : Slots, b : {0}, x : {TypeOf(v) : v \in Vals}] ELSE {})
        \cup [op : {"new"}, a : Slots, b : {0}, x : {0}]
+       \cup [op : {"take"}, a : Slots, b : {0}, x : {0}]
 
 Init == obj = [s \in Slots |-> IF s = 1 THEN <<>> ELSE Absent] /\ hist = <<>>
 Next == /\ Len(hist) < Depth
